@@ -2,6 +2,7 @@
 From Refinery Require Import Lib.Base Model.Panics Gen.GenC28.
 From Coq Require Import ZifyN ZifyNat ZifyBool.
 
+Definition queue_sizes_validated_nonnegative : bool := queue_peer_nonneg && queue_incoming_nonneg.
 Definition rates_clamped : bool := rate_clamped_0 && rate_clamped_1 && rate_clamped_2 && rate_clamped_3 && rate_clamped_4.
 
 (* ---------- GetKeyFields never panics once the loop skips empty names ---------- *)
@@ -111,6 +112,7 @@ Definition dispositions : list (site * disp) := [
   (("IsLegacyAPIKey", "slice", "key[3:6]"), DProved "legacy_key_64");
   (("IsLegacyAPIKey", "slice", "key[:2]"), DProved "legacy_key_64");
   (("MemorySize.MarshalText", "fdiv", "float64(m) / float64(size)"), DFloat);
+  (("asFloat", "fdiv", "float64(f) / float64(time.Millisecond)"), DFloat);
   (("Metadata.Validate", "exit", "panic"), DMetadata "unknown pattern / validation type named in the embedded configMeta.yaml");
   (("NewCmdEnvOptions", "exit", "os.Exit"), DStartup "--help");
   (("NewConfig", "exit", "os.Exit"), DStartup "--WriteConfig / --WriteRules dump-and-exit modes");
@@ -122,6 +124,12 @@ Definition dispositions : list (site * disp) := [
   (* sample *)
   (("DeterministicSampler.GetSampleRate", "slice", "sum[:4]"), DProved "sha1_prefix");
   (("DeterministicSampler.Start", "div", "math.MaxUint32 / uint32(d.sampleRate)"), DFixed "det_upper_bound_gen_safe");
+  (("DynamicSampler.GetSampleRate", "intn", "rand.Intn(int(rate))"), DFixed "sampler_draw_gen_safe");
+  (("EMADynamicSampler.GetSampleRate", "intn", "rand.Intn(int(rate))"), DFixed "sampler_draw_gen_safe");
+  (("EMAThroughputSampler.GetSampleRate", "intn", "rand.Intn(int(rate))"), DFixed "sampler_draw_gen_safe");
+  (("TotalThroughputSampler.GetSampleRate", "intn", "rand.Intn(int(rate))"), DFixed "sampler_draw_gen_safe");
+  (("WindowedThroughputSampler.GetSampleRate", "intn", "rand.Intn(int(rate))"), DFixed "sampler_draw_gen_safe");
+  (("RulesBasedSampler.GetSampleRate", "intn", "rand.Intn(rule.SampleRate)"), DProved "rules_draw_gen_safe (guard `rule.SampleRate > 0` extracted as rules_draw_guarded)");
   (("SamplerFactory.GetDownstreamSampler", "exit", "os.Exit"), DStartup "unknown sampler type: the Go type switch over the config structs is exhaustive for parsed rules");
   (("SamplerFactory.createSamplerIn", "exit", "os.Exit"), DStartup "unknown sampler type: the Go type switch over the config structs is exhaustive for parsed rules");
   (("SamplerFactory.updatePeerCounts", "div", "cfg / s.peerCount"), DCallerGuard "peerCount starts at 1 and is only overwritten by len(peers) > 0");
@@ -154,14 +162,24 @@ Definition dispositions : list (site * disp) := [
   (("unmarshalStressReliefMessage", "slice", "msg[:separatorIdx]"), DProved "stress_message_slices");
   (("unmarshalStressReliefMessage", "slice", "msg[separatorIdx+1:]"), DProved "stress_message_slices");
   (* internal/peer *)
+  (("RedisPubsubPeers.Ready", "intn", "rand.Int63n(int64(refreshCacheInterval / 5))"), DConstant "refreshCacheInterval is the constant 3s");
   (("peerCommand.unmarshal", "slice", "msgData[:idx-1]"), DProved "peer_command_slices");
   (("peerCommand.unmarshal", "slice", "msgData[idx:]"), DProved "peer_command_slices");
   (("peerCommand.unmarshal", "slice", "msg[1:]"), DProved "peer_command_slices");
-  (("peerCommand.unmarshal", "slice", "msg[:1]"), DProved "peer_command_slices")
+  (("peerCommand.unmarshal", "slice", "msg[:1]"), DProved "peer_command_slices");
+  (* transmit *)
+  (("DefaultTransmission.processResponses", "assert", "metadata[""api_host""].(string)"), DPool "metadata map attached by DefaultTransmission.EnqueueEvent itself with exactly these types");
+  (("DefaultTransmission.processResponses", "assert", "metadata[""dataset""].(string)"), DPool "metadata map attached by DefaultTransmission.EnqueueEvent itself with exactly these types");
+  (("DefaultTransmission.processResponses", "assert", "metadata[""enqueued_at""].(int64)"), DPool "metadata map attached by DefaultTransmission.EnqueueEvent itself with exactly these types");
+  (("DefaultTransmission.processResponses", "assert", "metadata[""environment""].(string)"), DPool "metadata map attached by DefaultTransmission.EnqueueEvent itself with exactly these types");
+  (("DefaultTransmission.processResponses", "assert", "r.Metadata.(map[string]any)"), DPool "metadata map attached by DefaultTransmission.EnqueueEvent itself with exactly these types");
+  (("DirectTransmission.sendBatch", "assert", "batchBufferPool.Get().(*[]byte)"), DPool "batchBufferPool.New returns *[]byte");
+  (("DirectTransmission.sendBatch", "assert", "readerPool.Get().(*bytes.Reader)"), DPool "readerPool.New returns *bytes.Reader");
+  (("init", "exit", "panic"), DStartup "zstd encoder built from constant options at package init")
 ].
 
 Definition all_sites : list site :=
-  sites_config ++ sites_sample ++ sites_route ++ sites_types ++ sites_sharder ++ sites_collect ++ sites_peer.
+  sites_config ++ sites_sample ++ sites_route ++ sites_types ++ sites_sharder ++ sites_collect ++ sites_peer ++ sites_transmit.
 Definition covered (s : site) : bool := existsb (fun d => site_eqb s (fst d)) dispositions.
 Definition stale (d : site * disp) : bool := negb (existsb (site_eqb (fst d)) all_sites).
 
@@ -173,7 +191,8 @@ Lemma table_not_stale : existsb stale dispositions = false.
 Proof. vm_compute. reflexivity. Qed.
 (* the two sites that were reachable from accepted configurations are guarded in the source now *)
 Lemma fixes_present : key_fields_skips_empty && det_start_guards_rate && det_rate_le_1_keeps && http_has_panic_catcher &&
-  validation_rejects_negative_durations && rates_clamped = true.
+  validation_rejects_negative_durations && rates_clamped && batch_ticker_clamped && (ema_throughput_interval_bounded && duration_bounds_keep_fraction) && rules_draw_guarded &&
+  queue_sizes_validated_nonnegative = true.
 Proof. reflexivity. Qed.
 
 Local Close Scope string_scope.
@@ -189,8 +208,6 @@ Lemma ticker_refuted_before_fix : duration_accepted false (-1000000000) = true /
 Proof. split; reflexivity. Qed.
 
 (* ---------- EMAThroughputSampler: known findings ---------- *)
-Lemma ema_interval_refuted : exists d, duration_accepted true d = true /\ ema_throughput_first_decision d = None.
-Proof. exists 1. split; reflexivity. Qed.
 Lemma ema_interval_partial d : d = 0 \/ 1000000 <= d -> ema_throughput_first_decision d <> None.
 Proof.
   unfold ema_throughput_first_decision. intros [->|H]; [discriminate|].
@@ -210,12 +227,50 @@ Proof. apply sampler_draw_clamped. Qed.
 Lemma sampler_draw_unclamped_refuted : sampler_draw false (-1) = None.
 Proof. reflexivity. Qed.
 
-(* ---------- DirectTransmission batch ticker: known finding ---------- *)
-Lemma batch_ticker_refuted : exists d, duration_accepted true d = true /\ d <> 0 /\ batch_ticker d = None.
-Proof. exists 3. split; [reflexivity|]. split; [discriminate|reflexivity]. Qed.
-Lemma batch_ticker_partial d : 4 <= d -> batch_ticker d <> None.
+(* ---------- DirectTransmission batch ticker (fixed) ---------- *)
+Lemma batch_ticker_clamped_safe d : batch_ticker true d <> None.
 Proof.
-  unfold batch_ticker. intros H.
-  assert (1 <= Z.quot d 4) by (apply Z.quot_le_lower_bound; lia).
-  destruct (Z.quot d 4 <=? 0) eqn:E; [lia|discriminate].
+  unfold batch_ticker. assert (1 <= Z.quot (Z.max d 4) 4) by (apply Z.quot_le_lower_bound; lia).
+  destruct (Z.quot (Z.max d 4) 4 <=? 0) eqn:E; [lia|discriminate].
 Qed.
+Lemma batch_ticker_gen_safe d : batch_ticker batch_ticker_clamped d <> None.
+Proof. apply batch_ticker_clamped_safe. Qed.
+Lemma batch_ticker_refuted : exists d, duration_accepted true d = true /\ d <> 0 /\ batch_ticker false d = None.
+Proof. exists 3. split; [reflexivity|]. split; [discriminate|reflexivity]. Qed.
+
+(* ---------- EMAThroughputSampler interval: the bound is in the validation metadata now ---------- *)
+Definition ema_bound_present : bool := ema_throughput_interval_bounded && duration_bounds_keep_fraction.
+Lemma ema_interval_bounded_safe d : ema_interval_accepted true d = true -> ema_throughput_first_decision d <> None.
+Proof.
+  unfold ema_interval_accepted. intros H. apply ema_interval_partial.
+  apply orb_true_iff in H. destruct H as [H|H]; [left; apply Z.eqb_eq; exact H|right; apply Z.leb_le; exact H].
+Qed.
+Lemma ema_interval_gen_safe d : ema_interval_accepted ema_bound_present d = true -> ema_throughput_first_decision d <> None.
+Proof. apply ema_interval_bounded_safe. Qed.
+Lemma ema_interval_refuted_before_fix : exists d, ema_interval_accepted false d = true /\ ema_throughput_first_decision d = None.
+Proof. exists 1. split; reflexivity. Qed.
+
+(* ---------- RulesBasedSampler static-rate draw ---------- *)
+Lemma rules_draw_strict_safe drop rate : rules_draw true drop rate <> None.
+Proof.
+  unfold rules_draw. destruct drop; [discriminate|].
+  destruct (0 <? rate) eqn:E; [|discriminate]. apply Z.ltb_lt in E.
+  destruct (rate <=? 0) eqn:E2; [lia|discriminate].
+Qed.
+Lemma rules_draw_gen_safe drop rate : rules_draw rules_draw_guarded drop rate <> None.
+Proof. apply rules_draw_strict_safe. Qed.
+Lemma rules_draw_weak_guard_refuted : rules_draw false false (-1) = None.
+Proof. reflexivity. Qed.
+
+(* ---------- collector queue sizes ---------- *)
+Lemma worker_queue_safe size workers : 1 <= workers -> queue_size_accepted true size = true -> worker_queue size workers <> None.
+Proof.
+  unfold queue_size_accepted, worker_queue. intros Hw Hs. apply Z.leb_le in Hs.
+  assert (0 <= Z.quot (size + workers - 1) workers) by (apply Z.quot_pos; lia).
+  destruct (Z.quot (size + workers - 1) workers <? 0) eqn:E; [lia|discriminate].
+Qed.
+Lemma worker_queue_gen_safe size workers :
+  1 <= workers -> queue_size_accepted queue_sizes_validated_nonnegative size = true -> worker_queue size workers <> None.
+Proof. apply worker_queue_safe. Qed.
+Lemma worker_queue_refuted_before_fix : queue_size_accepted false (-1) = true /\ worker_queue (-1) 1 = None.
+Proof. split; reflexivity. Qed.
